@@ -393,6 +393,40 @@ pub fn threads(n: usize, rng: &mut Rng, out: &mut Out) {
 /// that gets in is searched, printed and deleted.
 pub fn regs(size: usize, out: &mut Out) {
     let names = crate::palette::BUILTIN_NAMES;
+    // (e) registries across `clone_from`: the target knows a name under another type, knows names the source lacks, lacks
+    // names the source knows; after the copy everything about constraints must be the source's (thirteenth round, C13-g:
+    // a hand-written clone_from that merges the tables)
+    if out.mine() {
+        for (tk, sk) in [(&["even"][..], &["even_dup", "alpha"][..]), (&["nota", "even"][..], &["alpha"][..]), (&[][..], &["even", "nota"][..]),
+            (&["u8_dup", "alpha"][..], &["hasslash"][..])]
+        {
+            out.reset();
+            out.new_router(0, tk);
+            out.insert(0, "/t/{a:even}", 1);
+            out.insert(0, "/t/{b:nota}", 2);
+            out.new_router(1, sk);
+            out.insert(1, "/s/{x:even}", 3);
+            out.insert(1, "/s/{y:alpha}", 4);
+            out.insert(1, "/s/{*z:hasslash}", 5);
+            out.op("clone 1 0".to_owned());
+            for r in 0..2 {
+                out.display(r);
+                for p in ["/s/a", "/s/ab", "/s/abc", "/s/1", "/s/a/b", "/t/a", "/t/ab"] {
+                    out.search(r, p);
+                }
+                out.insert(r, "/n/{v:nota}", 6);
+                out.insert(r, "/n/{w:even}", 7);
+                out.insert(r, "/n/{q:alpha}", 8);
+                out.insert(r, "/n/{u:u8}", 9);
+                for k in ["even", "even_dup", "nota", "alpha", "u8_dup", "hasslash"] {
+                    out.op(format!("constraint {r} {k}"));
+                }
+                for p in ["/n/a", "/n/ab", "/n/7", "/n/abc"] {
+                    out.search(r, p);
+                }
+            }
+        }
+    }
     if out.mine() {
         for n in names {
             out.reset();
